@@ -160,3 +160,37 @@ L('n_keep_onto', {'u': 'str', 'k': 'int'},
   'forall(lambda x: exists(lambda j: And(keep_file(u[j]), n_keep(u, 0, j) == x), 0, k), 0, n_keep(u, 0, k))', ind='k', base='0',
   uses=['n_keep_nonneg(u, 0, k - 1)'])
 L('n_keep_nonneg_all', {'u': 'str', 'n': 'int'}, 'forall(lambda i: n_keep(u, 0, i) >= 0, 0, n + 1)', ind='n', base='0')
+
+# ----------------------------------------------------------------------------- C05: reversal
+# peeling the FIRST element of a count / a blob sum (the sums are defined by peeling the last one; reversal needs the first)
+L('npos_first', {'s': 'str', 'lo': 'int', 'hi': 'int'},
+  'And(npos(s, lo, hi) == ite(isin(s[lo], "KR+"), 1, 0) + npos(s, lo + 1, hi), nneg(s, lo, hi) == ite(isin(s[lo], "DE-"), 1, 0) + nneg(s, lo + 1, hi))',
+  ind='hi', base='lo + 1', requires=['lo + 1 <= hi'])
+L('dform_first', {'s': 'str', 'N': 'int', 'b': 'int', 'lo': 'int', 'hi': 'int'},
+  'dform_rng(s, N, b, lo, hi) == dform_term(s, N, b, lo) + dform_rng(s, N, b, lo + 1, hi)', ind='hi', base='lo + 1', requires=['lo + 1 <= hi'])
+_REV = 'forall(lambda j: charge(t[j]) == charge(s[N - 1 - j]), 0, N)'
+L('npos_rev', {'s': 'str', 't': 'str', 'N': 'int', 'lo': 'int', 'hi': 'int'},
+  'And(npos(t, lo, hi) == npos(s, N - hi, N - lo), nneg(t, lo, hi) == nneg(s, N - hi, N - lo))', ind='hi', base='lo',
+  requires=[_REV, '0 <= lo', 'lo <= hi', 'hi <= N'],
+  uses=['npos_first(s, N - hi, N - lo)'])
+L('dform_rev', {'s': 'str', 't': 'str', 'N': 'int', 'b': 'int', 'k': 'int'},
+  'dform_rng(t, N, b, 0, k) == dform_rng(s, N, b, N - b + 1 - k, N - b + 1)', ind='k', base='0',
+  requires=[_REV, 'b >= 1', 'N >= 1', '0 <= k', 'k <= N - b + 1'],
+  uses=['npos_rev(s, t, N, 0, N)', 'npos_rev(s, t, N, k - 1, k - 1 + b)', 'dform_first(s, N, b, N - b + 1 - k, N - b + 1)'])
+T('C05_delta_reversal', {'s': 'str', 't': 'str', 'N': 'int'}, 'delta_spec(s, N) == delta_spec(t, N)', requires=[_REV, 'N >= 1'],
+  uses=['when(N - 5 + 1 >= 0, dform_rev(s, t, N, 5, N - 5 + 1))', 'when(N - 6 + 1 >= 0, dform_rev(s, t, N, 6, N - 6 + 1))'])
+T('C05_dmax_reversal', {'s': 'str', 't': 'str', 'N': 'int'}, 'dmax_seq(s, N) == dmax_seq(t, N)', requires=[_REV, 'N >= 1'],
+  uses=['npos_rev(s, t, N, 0, N)', 'count_partition(s, 0, N)', 'count_partition(t, 0, N)'])
+T('C05_kappa_reversal', {'s': 'str', 't': 'str', 'N': 'int'}, 'kappa_seq(s, N) == kappa_seq(t, N)', requires=[_REV, 'N >= 1'],
+  uses=['when(N - 5 + 1 >= 0, dform_rev(s, t, N, 5, N - 5 + 1))', 'when(N - 6 + 1 >= 0, dform_rev(s, t, N, 6, N - 6 + 1))',
+        'npos_rev(s, t, N, 0, N)', 'count_partition(s, 0, N)', 'count_partition(t, 0, N)'])
+
+# ----------------------------------------------------------------------------- C03.d: the permutant uses every letter as often as the parent
+# counting a letter in a filtered list = counting the letter among the source positions that pass the filter
+L('filter_cnt', {'r': 'str', 'u': 'str', 'b': 'list[bool]', 'a': 'char', 'k': 'int'},
+  'cnt(lambda x: r[x] == a, 0, cnt(lambda i: b[i], 0, k)) == cnt(lambda j: And(b[j], u[j] == a), 0, k)', ind='k', base='0',
+  requires=['forall(lambda j: implies(b[j], r[cnt(lambda i: b[i], 0, j)] == u[j]), 0, k)'], uses=['cnt_nonneg(b, 0, k - 1)'])
+# the three charge classes partition the occurrences of a letter
+L('class_letter_partition', {'u': 'str', 'a': 'char', 'k': 'int'},
+  'cnt(lambda j: And(isin(u[j], "RK"), u[j] == a), 0, k) + cnt(lambda j: And(isin(u[j], "DE"), u[j] == a), 0, k) + '
+  'cnt(lambda j: And(Not(isin(u[j], "DERK")), u[j] == a), 0, k) == cnt(lambda j: u[j] == a, 0, k)', ind='k', base='0')
